@@ -1,11 +1,11 @@
 #!/bin/sh
 # runall.sh <tier>: run every check once, print one line each
 cd "$(dirname "$0")/.."
-T=${1:-quick}
+T=${1:-quick}; export VERIF_SEED=${2:-0}
 for p in 01 02 03 04 05 06 07 08 09 10 11 12 13 14 15 16 17 18; do
   s=$(date +%s)
   ./check C$p --tier $T > /tmp/runall-C$p.out 2>&1; rc=$?
   e=$(date +%s)
-  echo "C$p $T rc=$rc $((e-s))s $(grep -c '^VIOLATION' /tmp/runall-C$p.out) violations; $(tail -1 /tmp/runall-C$p.out | cut -c1-160)"
+  echo "seed=$VERIF_SEED C$p $T rc=$rc $((e-s))s $(grep -c '^VIOLATION' /tmp/runall-C$p.out) violations; $(tail -1 /tmp/runall-C$p.out | cut -c1-160)"
   grep -m3 -A1 -E '^VIOLATION|MACHINERY' /tmp/runall-C$p.out | cut -c1-300
 done
